@@ -8,7 +8,7 @@ from .c26 import compare, digest
 
 RULE = ("K: the constraint systems of the C26 generator (1-8 objects, all five constraint kinds, static shapes/positions, "
         "under-/over-constrained and conflicting systems, uniform and non-uniform grids, tiny max_iter) plus the three witness "
-        "families of the defects of the pinned tree (early exit, skipped real position, unknown volume bound); each system is solved by fdtdx.resolve_object_constraints under EVERY "
+        "families of the defects of the pinned tree (early exit, skipped real position, unknown volume bound) and the multi-axis SizeConstraint family with one axis known statically (seed C27i, 7 systems); each system is solved by fdtdx.resolve_object_constraints under EVERY "
         "permutation of its constraints when it has <= 4 of them (<= 24 orders, combined with reversed/shuffled object lists) and "
         "under 8 random constraint orders x object orders otherwise; a 'staggered' family (2-/3-axis PositionConstraints whose axes "
         "resolve in different passes through SizeConstraint chains of depth 1-3, dependents left to extension-to-infinity, "
